@@ -146,10 +146,10 @@ PROPS["C15"] = {
 
 PROPS["C14"] = {
     "engine": "text", "properties_file": "Properties/C14.v", "env": {"TZ": "UTC"},
-    "model_files": ["Model/TextForms.v", "Model/Cases14.v", "Model/Addr.v"],
+    "model_files": ["Model/TextForms.v", "Model/TextComposites.v", "Model/Cases14.v", "Model/Addr.v"],
     "technique": "Coq: model of every MarshalJSON/UnmarshalJSON and String()/parser pair over JSON value trees; round-trip theorems for all in-domain values (digit formatting by complete enumeration lifted to arbitrary surrounding text, addresses via the C15 theorems), rejection theorems, a refutation theorem for the known finding; differential run through the real encoding/json under 10 (thorough: all installed) process zones",
-    "level_text": "Proved (32 theorems): decoding the encoding returns the value for every calendar date of years 1..9999, every date-time with ANY non-empty zone abbreviation (so -03, +0545 and every name), all 1441 HH:mm values, all PINs 0..999999, the three control states, the 13 task types (name form, also through the text parser), all 65536 versions, all 2^48 MAC addresses, all addresses x allowed ports of the four address types, all 128 weekday sets, every Segments value without a gap decoded into a nil map; and for the text forms String() -> ParseDate / HHmmFromString / TimeFromString / UnmarshalTSV / CardFormatFromString. Rejections: every dddd-dd-dd that is not a calendar date, every date-time with an impossible date or time of day whatever follows it, every two-digit hh:mm beyond 24:00 or with minutes above 59, PINs longer than six characters, every text that is not one of the three control states, task type numbers outside 1..13, forbidden ports per role; the executable reject oracle applied to the harness cases is proved sound for the model. The full statement is REFUTED for Segments values with a gap (theorem C14_segments_gap_refuted; known finding F15). Tie: every generated value goes through json.Marshal and json.Unmarshal into a fresh zero variable (nil maps) under each process zone; the model must produce the same JSON tree and the same decoded value; Card, TimeProfile and Task (composites of the proved parts plus plain encoding/json struct handling) are checked by the Go-side round trip only.",
-    "level_note": "Partial: composites (card, time profile, task) have no model - harness oracle only; encoding/json's text<->tree step and Go's zone-abbreviation parsing are exercised, not modelled (the model accepts any text after the civil prefix, as the repaired code does). F12 (nil-map panic) and F13 (+0545-style abbreviations) were found by this check and repaired; F15 (Segments with a gap) is a known finding: the library's own test pins the encoding that loses the positions. Trusted: Coq kernel + vm_compute (enumerations of 100/10000 numerals, 65536 versions, 256 bytes, 128 weekday sets); hand transcription of types/*.go JSON and text methods.",
+    "level_text": "Proved (32 theorems): decoding the encoding returns the value for every calendar date of years 1..9999, every date-time with ANY non-empty zone abbreviation (so -03, +0545 and every name), all 1441 HH:mm values, all PINs 0..999999, the three control states, the 13 task types (name form, also through the text parser), all 65536 versions, all 2^48 MAC addresses, all addresses x allowed ports of the four address types, all 128 weekday sets, every Segments value without a gap decoded into a nil map; every card (any number, both dates, door values 0..255, PIN 0..999999), time profile and task whose maps are the ones the library builds (doors 1..4, seven weekdays, segments 1..3); and for the text forms String() -> ParseDate / HHmmFromString / TimeFromString / UnmarshalTSV / CardFormatFromString. Rejections: every dddd-dd-dd that is not a calendar date, every date-time with an impossible date or time of day whatever follows it, every two-digit hh:mm beyond 24:00 or with minutes above 59, PINs longer than six characters, every text that is not one of the three control states, task type numbers outside 1..13, forbidden ports per role; the executable reject oracle applied to the harness cases is proved sound for the model. The full statement is REFUTED for Segments values with a gap (theorem C14_segments_gap_refuted; known finding F15). Tie: every generated value goes through json.Marshal and json.Unmarshal into a fresh zero variable (nil maps) under each process zone; the model must produce the same JSON tree and the same decoded value - scalars, maps and the composites Card, TimeProfile, Task alike.",
+    "level_note": "Domain notes: a Card without dates is outside the JSON domain (Card.UnmarshalJSON demands both dates; TimeProfile and Task accept the zero date); composite maps with other key sets than the library's own (doors beyond 1..4, partial weekday maps) are compared observationally on the Go side only. encoding/json's text<->tree step and Go's zone-abbreviation parsing are exercised, not modelled (the model accepts any text after the civil prefix, as the repaired code does). F12 (nil-map panic) and F13 (+0545-style abbreviations) were found by this check and repaired; F15 (Segments with a gap) is a known finding: the library's own test pins the encoding that loses the positions. Trusted: Coq kernel + vm_compute (enumerations of 100/10000 numerals, 65536 versions, 256 bytes, 128 weekday sets); hand transcription of types/*.go JSON and text methods.",
     "rule": "per zone: random dates, date-times (abbreviation taken from Go), composites; once: HH:mm, PIN boundaries, control states 0..5, task types, versions, MACs, 4x40 addresses with boundary ports, weekday sets, segments (incl. nil and gapped maps), String()->parser round trips, and the listed boundary texts for every parser. Non-trivial = every round trip and every non-empty text; distinct = distinct Coq case terms.",
 }
 
